@@ -2,7 +2,7 @@
 //! async API): received stream content must equal the concatenation of COMPLETED writes, in
 //! order, exactly once, also when cancel-safe operations are cancelled at arbitrary points.
 
-use std::sync::Arc;
+use std::{future::Future, sync::Arc};
 
 use bytes::Bytes;
 use qv::util::{hash64, payload_check, payload_fill, Rng};
@@ -445,10 +445,38 @@ pub async fn writer(cx: Arc<Ctx>, mut ts: TSend, mut rng: Rng, total: u64) {
             env.hist(me, sid, || "finish()".into(), |h| h.finished = true);
             let _ = ts.get().finish();
             let mut tries = 0;
+            // stopped(&self) hands out any number of futures for one stream: sometimes a sibling is
+            // created next to the tracked one, polled, and dropped while the tracked one is parked
+            let sibling = rng.below(2) == 0;
             loop {
                 tries += 1;
                 let c = if tries <= 2 { cancel(&mut rng, cpct) } else { None };
-                match env.op(OpKind::Stopped, me, Some(sid), c, ts.get().stopped()).await {
+                let mut main = Box::pin(env.op(OpKind::Stopped, me, Some(sid), c, ts.get().stopped()));
+                if sibling && tries == 1 {
+                    let mut sib = Box::pin(ts.get().stopped());
+                    let early = std::future::poll_fn(|cx| {
+                        let m = main.as_mut().poll(cx);
+                        let _ = sib.as_mut().poll(cx);
+                        std::task::Poll::Ready(m)
+                    })
+                    .await;
+                    drop(sib);
+                    env.inc("writer.stopped_sibling_dropped");
+                    if let std::task::Poll::Ready(r) = early {
+                        match r {
+                            OpRes::Done(Ok(Some(code))) => cx.saw_stopped(sid, code.into_inner(), "stopped"),
+                            OpRes::Done(Err(StoppedError::ConnectionLost(ce))) => cx.conn_err(&ce, "stopped"),
+                            OpRes::Done(Err(e)) => env.violate(format!("stopped on {} failed with {e:?}", cx.tag(sid))),
+                            OpRes::Done(Ok(None)) => env.inc("writer.stopped_none"),
+                            OpRes::Cancelled => {
+                                env.hist(me, sid, || "stopped() future dropped while pending".into(), |h| h.stopped_cancelled = true);
+                                continue;
+                            }
+                        }
+                        break;
+                    }
+                }
+                match main.await {
                     OpRes::Done(Ok(None)) => {
                         env.inc("writer.stopped_none");
                         break;
